@@ -104,7 +104,8 @@ def options(task):
     return {"n": n, "bad": bad, "dup_states": dup_states}
 
 
-def make_reads(rnd, N, A, n_reads):
+def make_reads(rnd, N, A, n_reads, sparse=False):
+    """sparse: one SNV that no read covers and two reads without any base call (not the last rows), with unequal counts"""
     mx = max(A)
     reads = np.zeros((n_reads, N, mx))
     for r in range(n_reads):
@@ -115,6 +116,12 @@ def make_reads(rnd, N, A, n_reads):
                 p = rnd.dirichlet(np.ones(A[j]) * 0.7)
                 reads[r, j, : A[j]] = p
     counts = rnd.randint(1, 4, size=n_reads).astype(np.int64)
+    if sparse:
+        reads[:, rnd.randint(N), :] = np.nan
+        reads[0, :, :] = np.nan
+        if n_reads > 3:
+            reads[2, :, :] = np.nan
+        counts = (np.arange(n_reads) % 3 + 1 + rnd.randint(0, 2, size=n_reads) * 3).astype(np.int64)
     return reads, counts
 
 
@@ -134,7 +141,7 @@ def kernel(task):
     N = len(A)
     P = task["P"]
     rnd = np.random.RandomState(task["seed"])
-    reads, counts = make_reads(rnd, N, A, task.get("n_reads", 5))
+    reads, counts = make_reads(rnd, N, A, task.get("n_reads", 5), sparse=task.get("sparse", False))
     if not task.get("counts", True):
         counts = None
     F = task["F"]
